@@ -242,6 +242,10 @@ theorem xts_inplace_eq (f E2 : Bytes → Bytes) (hf : ∀ x, x.length = 16 → (
     rw [hout] at this
     exact this
 
+example : ∃ m, cryptMem id id (zeros 64) ⟨0, 32⟩ ⟨0, 32⟩ 5 = .ok m := ⟨_, rfl⟩      -- in place
+example : ∃ m, cryptMem id id (zeros 64) ⟨32, 32⟩ ⟨0, 32⟩ 5 = .ok m := ⟨_, rfl⟩     -- disjoint
+example : cryptMem id id (zeros 64) ⟨8, 32⟩ ⟨0, 32⟩ 5 = .panic := rfl                -- inexact overlap
+
 /-- **arguments unmodified**: a non-panicking call changes no arena byte outside dst[:len(src)] — in
     particular not src when the windows are disjoint, nor anything behind dst[:len(src)] -/
 theorem cryptMem_outside (f E2 : Bytes → Bytes) (hf : ∀ x, x.length = 16 → (f x).length = 16)
